@@ -5,6 +5,16 @@ From LV Require Import Mod.Modules.
 Import ListNotations.
 Local Open Scope string_scope.
 
+(* abbreviations used by the generated case files (plain definitions: they unfold to the constructors) *)
+Definition V (t : tree) : tree := Nd "value" [t].
+Definition R (n : string) : tree := V (Sy false n).
+Definition T (n : string) : tree := V (Sy true n).
+Definition Lt (s : string) : tree := V (Nd "literal" [Tk s]).
+Definition E (l : list tree) : tree := Nd "expansion" l.
+Definition X (l : list tree) : tree := Nd "expansions" l.
+Definition Rd (n : string) (t : tree) : defn := mkDef n false (Some t) [] (ORule false false None None).
+Definition Td (n : string) (t : tree) : defn := mkDef n true (Some t) [] (OTerm 0).
+
 Definition opt_eqb {A} (f : A -> A -> bool) (a b : option A) : bool :=
   match a, b with
   | None, None => true
